@@ -168,6 +168,7 @@ type concCfg struct {
 	Merge      int // goroutines calling Merge in a loop (C17)
 	KVSetsOnly bool
 	Class      string
+	PreMerge   bool // RAM-mode databases: fill a few segments of an unrelated bucket and Merge once before the workload
 }
 
 type yielder struct {
@@ -196,7 +197,7 @@ func (y *yielder) maybe(point string) {
 }
 
 // genConcTx builds one shard transaction: reads first, then at most one state-dependent write per structure, then blind writes.
-func genConcTx(r *rand.Rand, shard int, ds bool, kvSetsOnly bool, client int, ctr *int) (ops []Op, writable bool) {
+func genConcTx(r *rand.Rand, shard int, ds bool, kvSetsOnly bool, search bool, client int, ctr *int) (ops []Op, writable bool) {
 	b := shardBucket(shard)
 	keys := [][]byte{[]byte("k1"), []byte("k2")}
 	val := func() []byte { *ctr++; return []byte(fmt.Sprintf("c%d-%d", client, *ctr)) }
@@ -206,6 +207,14 @@ func genConcTx(r *rand.Rand, shard int, ds bool, kvSetsOnly bool, client int, ct
 		nReads = 2 + r.Intn(4)
 	}
 	for i := 0; i < nReads; i++ {
+		if search && r.Intn(8) == 0 {
+			// a regular expression nobody has used before (the text after the last '|' never matches): read paths that
+			// cache or share compiled expressions are exercised by concurrent readers with fresh expressions
+			*ctr++
+			re := []string{"[12]", "^1$", "2", ".*", "^$"}[r.Intn(5)] + fmt.Sprintf("|u%d-%d", client, *ctr)
+			ops = append(ops, Op{K: "PrefixSearchScan", B: b, Key: []byte("k"), Re: re, I: 0, J: -1})
+			continue
+		}
 		switch x := r.Intn(10); {
 		case !ds && x >= 6:
 			if x < 8 {
@@ -281,6 +290,7 @@ type concResult struct {
 	mergeErrs   int64
 	finalBad    []string
 	finalReads  int64
+	preMerges   int64
 	orders      map[string]bool
 }
 
@@ -308,6 +318,29 @@ func runConc(c *CaseCtx, cc concCfg) *concResult {
 		}
 		dbs = append(dbs, db)
 	}
+	if cc.PreMerge {
+		// a handle that has already merged successfully is a different state of the library (flags and the active
+		// file were changed by Merge); the concurrent phase must behave the same on it
+		for i, db := range dbs {
+			if cc.DBs[i].Mode == 2 {
+				continue
+			}
+			val := make([]byte, int(cc.DBs[i].Seg)/3)
+			for k := 0; k < 8; k++ {
+				db.Update(func(tx *nutsdb.Tx) error { return tx.Put("pre", []byte(fmt.Sprintf("p%d", k%3)), val, 0) })
+			}
+			func() {
+				defer func() {
+					if p := recover(); p != nil {
+						res.panics = append(res.panics, fmt.Sprintf("Merge before the workload panicked: %v", p))
+					}
+				}()
+				if err := db.Merge(); err == nil {
+					res.preMerges++
+				}
+			}()
+		}
+	}
 	h := &histRec{t0: time.Now()}
 	var wg sync.WaitGroup
 	var mu sync.Mutex
@@ -328,7 +361,7 @@ func runConc(c *CaseCtx, cc concCfg) *concResult {
 				db := dbs[di]
 				cfg := cc.DBs[di]
 				shard := r.Intn(cc.Shards)
-				ops, writable := genConcTx(r, shard, cfg.Mode == 0, cc.KVSetsOnly, g, &ctr)
+				ops, writable := genConcTx(r, shard, cfg.Mode == 0, cc.KVSetsOnly, cfg.Mode != 2, g, &ctr)
 				failFn := writable && r.Intn(12) == 0
 				in := concIn{DB: di, Shard: shard, Writable: writable}
 				out := concOut{}
